@@ -242,4 +242,16 @@ def fit (algo : Algo) (nRow nCol nnz : Nat) (B : Nat → Nat → Rat) (a : Args)
     | .error e => .error e
     | .ok v => .ok (splitVars p.bipartite nRow v)
 
+/-! ### the return paths of `BaseRegressor` -/
+
+/-- `predict(columns)`: `values_col_` when `columns` is true (`None` after a fit on an adjacency matrix — `fit`
+    starts with `_init_vars()`), else `values_` -/
+def predict (o : Out) (columns : Bool) : Option (List Rat) :=
+  if columns then o.valuesCol else some o.values
+
+/-- `fit_predict(…)`: `fit`, then `values_` -/
+def fitPredict (algo : Algo) (nRow nCol nnz : Nat) (B : Nat → Nat → Rat) (a : Args) (nIter : Int) (α : Rat) :
+    Except PyErr (List Rat) :=
+  (fit algo nRow nCol nnz B a nIter α).map (·.values)
+
 end SkNet.Heat
